@@ -192,6 +192,19 @@ theorem tie_callSequences : callSequences = [
   ("construct", ["p.checkHandler().construct", "p.checkHandler", "p.val.runtime.toObject", "p.ctor"])
 ] := by rfl
 
+/-- callability (Model.proxyLayer `callable` / `constructor` / `call` / `construct`): p.call / p.ctor are set once, at
+creation, iff the target is callable / a constructor (proxy.go:55-60); `typeof`, IsCallable, IsConstructor read exactly those
+slots; apply / construct first test the slot (TypeError), then the handler through checkHandler(), return the apply trap's result
+unchecked and the construct trap's result through toObject, and fall through to the target's own call / construct -/
+theorem tie_callability : callabilityTexts = [
+  ("_newProxyObject", "if call , ok : = target . self . assertCallable ( ) ; ok { p . call = call } ;; if ctor : = target . self . assertConstructor ( ) ; ctor ! = nil { p . ctor = ctor }"),
+  ("assertCallable", "{ if p . call ! = nil { return func ( call FunctionCall ) Value { return p . apply ( call ) } , true } return nil , false }"),
+  ("assertConstructor", "{ if p . ctor ! = nil { return p . construct } return nil }"),
+  ("typeOf", "{ if p . call = = nil { return stringObjectC } return stringFunction }"),
+  ("apply", "{ if p . call = = nil { panic ( p . val . runtime . NewTypeError ( \"\" ) ) } if v , ok : = p . checkHandler ( ) . apply ( p . target , nilSafe ( call . This ) , call . Arguments ) ; ok { return v } return p . call ( call ) }"),
+  ("construct", "{ if p . ctor = = nil { panic ( p . val . runtime . NewTypeError ( \"\" ) ) } if newTarget = = nil { newTarget = p . val } if v , ok : = p . checkHandler ( ) . construct ( p . target , args , newTarget ) ; ok { return p . val . runtime . toObject ( v ) } return p . ctor ( args , newTarget ) }")
+] := by rfl
+
 /-- every internal-method implementation of proxyObject reaches the handler only through checkHandler(),
 calls it, and dereferences the target only afterwards -/
 theorem tie_revocation_shape :
